@@ -79,6 +79,7 @@ type FuncContract struct {
 	HasMods      bool
 	Uses         []string
 	Terminates   bool
+	Quiet        bool // "quiet": the function (and what it inlines) must not write to the process's standard output (fmt.Print*): each such call is an obligation of kind stdout
 	MayPanic     bool // "panics": explicit panic statements of this function are documented behaviour (Must* helpers); reported as an assumption
 	Callbacks    []string
 	CallbackRank map[string]int // ranks of traced callbacks (ghost event trace)
@@ -117,7 +118,7 @@ type ContractFile struct {
 var clauseKeywords = map[string]bool{
 	"pred": true, "def": true, "spec": true, "axiom": true, "func": true, "lemma": true, "commute": true,
 	"requires": true, "ensures": true, "modifies": true, "decreases": true, "loop": true,
-	"pure": true, "inline": true, "trusted": true, "terminates": true, "panics": true, "callback": true, "ghost": true,
+	"pure": true, "inline": true, "trusted": true, "terminates": true, "panics": true, "quiet": true, "callback": true, "ghost": true,
 }
 
 func ParseContractFile(path, pkg string) (*ContractFile, error) {
@@ -277,6 +278,8 @@ func ParseContractFile(path, pkg string) (*ContractFile, error) {
 				cur.Terminates = true
 			case "panics":
 				cur.MayPanic = true
+			case "quiet":
+				cur.Quiet = true
 			default:
 				text := it.text
 				c := &Clause{Kind: it.kw, Line: it.line}
